@@ -4,6 +4,7 @@ import (
 	"fmt"
 	"go/token"
 	"go/types"
+	"strings"
 
 	"golang.org/x/tools/go/ssa"
 )
@@ -807,13 +808,8 @@ func c02r6(c *Ctx) {
 		}
 		okp := len(nn) == 1
 		if okp {
-			start := nn[0].To()
-			bad := pathAvoiding(md, nil, func(i ssa.Instruction) bool { return i == ssa.Instruction(upd) }, func(i ssa.Instruction) bool {
-				return isReturn(i) && underEdges(md, i.Block(), nn) || false
-			})
-			_ = start
-			// returns under the non-nil edge without the update
-			okp = bad == nil
+			_, found := pathAvoidingE(nn[0].To(), nil, func(i ssa.Instruction) bool { return i == ssa.Instruction(upd) }, isReturn, nil, nil)
+			okp = !found
 		}
 		c.Check("MarkDone:requeue on every non-nil path", upd.Pos(), okp, "a path with a non-nil recorded request leaves MarkDone without re-queueing it")
 		// delete from processing precedes/exists
@@ -909,7 +905,112 @@ func c02r7(c *Ctx) {
 		})
 	}
 	c.Check("free:stores found", db.Pos(), nTrue >= 2 && nFalse >= 1, fmt.Sprintf("expected initial+completion true stores and a false store; found true=%d false=%d", nTrue, nFalse))
-	// every Go in debounce closures whose callee is the `push` closure (which signals freeCh) is preceded in-block by free=false
+	// Mutual exclusion of pushFn invocations: every call site of pushFn (in debounce and its closures) either holds one
+	// common mutex across the call, or lies in the single-flight protocol closure (the one that signals freeCh and is
+	// started only after free=false).
+	isPushFnCall := func(i2 ssa.Instruction) bool {
+		ci, ok := i2.(ssa.CallInstruction)
+		if !ok {
+			return false
+		}
+		v := ci.Common().Value
+		if u, ok := v.(*ssa.UnOp); ok {
+			v = u.X
+		}
+		if fv, ok := v.(*ssa.FreeVar); ok && fv.Name() == "pushFn" {
+			return true
+		}
+		if pr, ok := v.(*ssa.Parameter); ok && pr.Name() == "pushFn" {
+			return true
+		}
+		return false
+	}
+	lockCell := func(i2 ssa.Instruction, method string) string {
+		ci, ok := i2.(ssa.CallInstruction)
+		if !ok {
+			return ""
+		}
+		o := calleeObj(i2)
+		if o == nil || o.Name() != method || o.Pkg() == nil || o.Pkg().Path() != "sync" {
+			return ""
+		}
+		args := ci.Common().Args
+		if len(args) == 0 {
+			return ""
+		}
+		switch x := args[0].(type) {
+		case *ssa.FreeVar:
+			return x.Name()
+		case *ssa.Alloc:
+			return x.Comment
+		}
+		return ""
+	}
+	type site struct {
+		fn    *ssa.Function
+		call  ssa.Instruction
+		held  string
+		proto bool
+	}
+	var sites []site
+	for _, fn := range fns {
+		signals := false
+		eachInstr(fn, func(i2 ssa.Instruction) {
+			if _, ok := i2.(*ssa.Send); ok {
+				signals = true
+			}
+		})
+		eachInstr(fn, func(i2 ssa.Instruction) {
+			if !isPushFnCall(i2) {
+				return
+			}
+			st := site{fn: fn, call: i2, proto: signals}
+			// a Lock of cell X precedes the call on every path and no Unlock of X lies between; an Unlock follows on every path
+			for _, b := range fn.Blocks {
+				for _, i3 := range b.Instrs {
+					x := lockCell(i3, "Lock")
+					if x == "" {
+						continue
+					}
+					pre := precededOnAllPaths(fn, i2, func(i4 ssa.Instruction) bool { return i4 == i3 })
+					_, unlockedBefore := pathAvoidingE(nil, i3, func(i4 ssa.Instruction) bool { return i4 == i2 }, func(i4 ssa.Instruction) bool { return lockCell(i4, "Unlock") == x }, nil, nil)
+					_, leak := pathAvoidingE(nil, i2, func(i4 ssa.Instruction) bool {
+						if lockCell(i4, "Unlock") == x {
+							return true
+						}
+						if d, ok := i4.(*ssa.Defer); ok && lockCell(d, "Unlock") == x {
+							return true
+						}
+						return false
+					}, isReturn, nil, nil)
+					deferred := false
+					eachInstr(fn, func(i4 ssa.Instruction) {
+						if d, ok := i4.(*ssa.Defer); ok && lockCell(d, "Unlock") == x {
+							deferred = true
+						}
+					})
+					if pre && (!unlockedBefore) && (!leak || deferred) {
+						st.held = x
+					}
+				}
+			}
+			sites = append(sites, st)
+		})
+	}
+	c.Check("pushFn call sites found", db.Pos(), len(sites) >= 1, "no call of pushFn found in debounce")
+	common := ""
+	allHeld := len(sites) > 0
+	for i, st := range sites {
+		if st.held == "" || (i > 0 && st.held != common) {
+			allHeld = false
+		}
+		common = st.held
+	}
+	for _, st := range sites {
+		ok := allHeld || st.proto
+		c.Check("pushFn call is mutually exclusive:"+shortFn(st.fn), st.call.Pos(), ok, "pushFn (DiscoveryServer.Push -> initPushContext, which must not run in parallel) is called in a goroutine that neither holds the mutex shared by all pushFn call sites nor belongs to the free/freeCh single-flight protocol: two snapshot builds can overlap and the older one can be published last")
+	}
+	// every Go whose callee signals freeCh is preceded in-block by free=false
 	for _, fn := range fns {
 		eachInstr(fn, func(ins ssa.Instruction) {
 			g, ok := ins.(*ssa.Go)
@@ -921,7 +1022,6 @@ func c02r7(c *Ctx) {
 				c.Check("go:target resolvable "+shortFn(fn), g.Pos(), false, "cannot resolve the goroutine's function")
 				return
 			}
-			// does callee send on freeCh?
 			signals := false
 			eachInstr(callee, func(i2 ssa.Instruction) {
 				if _, ok := i2.(*ssa.Send); ok {
@@ -938,29 +1038,83 @@ func c02r7(c *Ctx) {
 					}
 				}
 				c.Check("go push:free=false first", g.Pos(), pre, "the push goroutine is started without marking the debouncer busy")
-				// and the go is reachable only when free was true: callers of pushWorker are under `free` test or the freeCh arm (checked by the true-store rule)
+			}
+		})
+	}
+	// C02-1 class: when the running push completes (receive from freeCh) the pending request must be re-evaluated:
+	// every path through that arm calls pushWorker (which pushes or re-arms the timer) or assigns the timer itself.
+	{
+		var sel *ssa.Select
+		eachInstr(db, func(ins ssa.Instruction) {
+			if x, ok := ins.(*ssa.Select); ok {
+				sel = x
+			}
+		})
+		if sel == nil {
+			c.Check("debounce:select found", db.Pos(), false, "no select in debounce")
+		} else {
+			k := -1
+			for i, st := range sel.States {
+				if st.Dir != types.RecvOnly {
+					continue
+				}
+				v := st.Chan
+				if u, ok := v.(*ssa.UnOp); ok {
+					v = u.X
+				}
+				if a, ok := v.(*ssa.Alloc); ok && a.Comment == "freeCh" {
+					k = i
+				}
+				if mc, ok := v.(*ssa.MakeChan); ok && isNamedLocal(mc, "freeCh") {
+					k = i
+				}
+			}
+			var arm *ssa.BasicBlock
+			for _, i := range allIfs(db) {
+				b, ok := i.Cond.(*ssa.BinOp)
+				if !ok || b.Op != token.EQL {
+					continue
+				}
+				ex, ok := b.X.(*ssa.Extract)
+				if !ok || ex.Tuple != ssa.Value(sel) || ex.Index != 0 {
+					continue
+				}
+				if kc, ok := b.Y.(*ssa.Const); ok && kc.Int64() == int64(k) {
+					arm = i.Block().Succs[0]
+				}
+			}
+			if arm == nil {
+				c.Check("debounce:freeCh arm found", sel.Pos(), false, "cannot identify the arm that receives from freeCh")
 			} else {
-				// a goroutine that calls pushFn without the protocol: the EDS fast path
-				callsPush := false
-				eachInstr(callee, func(i2 ssa.Instruction) {
+				isReeval := func(i2 ssa.Instruction) bool {
 					if ci, ok := i2.(ssa.CallInstruction); ok {
 						v := ci.Common().Value
 						if u, ok := v.(*ssa.UnOp); ok {
 							v = u.X
 						}
-						if fv, ok := v.(*ssa.FreeVar); ok && fv.Name() == "pushFn" {
-							callsPush = true
+						if a, ok := v.(*ssa.Alloc); ok && a.Comment == "pushWorker" {
+							return true
 						}
-						if pr, ok := v.(*ssa.Parameter); ok && pr.Name() == "pushFn" {
-							callsPush = true
+						if mc, ok := v.(*ssa.MakeClosure); ok {
+							if f, ok := mc.Fn.(*ssa.Function); ok && strings.HasSuffix(f.Name(), "$2") {
+								_ = f
+							}
+						}
+						if f := closureOfValue(ci.Common().Value); f != nil && setsTimerOrPushes(f) {
+							return true
 						}
 					}
-				})
-				if callsPush {
-					c.Check("go pushFn outside single-flight", g.Pos(), false, "pushFn (DiscoveryServer.Push -> initPushContext) is started in a goroutine outside the free/freeCh protocol; initPushContext must not run in parallel")
+					if s, ok := i2.(*ssa.Store); ok {
+						if a, ok := s.Addr.(*ssa.Alloc); ok && a.Comment == "timeChan" {
+							return true
+						}
+					}
+					return false
 				}
+				_, found := pathAvoidingE(arm, nil, isReeval, nil, nil, sel.Block())
+				c.Check("debounce:completion re-evaluates the pending request", sel.Pos(), !found, "a path through the `<-freeCh` arm loops back without calling pushWorker or re-arming the timer: events merged while the push ran (whose timer already fired and was ignored) are never pushed")
 			}
-		})
+		}
 	}
 	// the timer arm calls pushWorker only under `free`
 	c.Floor(5)
@@ -1099,4 +1253,43 @@ func isNamedLocal(v ssa.Value, name string) bool {
 		}
 	}
 	return v.Name() == name
+}
+
+// closureOfValue resolves a called value to the closure function it denotes (direct, via MakeClosure, or via a local cell).
+func closureOfValue(v ssa.Value) *ssa.Function {
+	switch x := v.(type) {
+	case *ssa.Function:
+		return x
+	case *ssa.MakeClosure:
+		f, _ := x.Fn.(*ssa.Function)
+		return f
+	case *ssa.UnOp:
+		if a, ok := x.X.(*ssa.Alloc); ok {
+			for _, ref := range *a.Referrers() {
+				if s, ok := ref.(*ssa.Store); ok && s.Addr == ssa.Value(a) {
+					if mc, ok := s.Val.(*ssa.MakeClosure); ok {
+						f, _ := mc.Fn.(*ssa.Function)
+						return f
+					}
+				}
+			}
+		}
+	}
+	return nil
+}
+
+// setsTimerOrPushes: the closure contains a `go` statement and a store to the captured timer channel (pushWorker's shape).
+func setsTimerOrPushes(f *ssa.Function) bool {
+	hasGo, setsTimer := false, false
+	eachInstr(f, func(ins ssa.Instruction) {
+		if _, ok := ins.(*ssa.Go); ok {
+			hasGo = true
+		}
+		if s, ok := ins.(*ssa.Store); ok {
+			if fv, ok := s.Addr.(*ssa.FreeVar); ok && fv.Name() == "timeChan" {
+				setsTimer = true
+			}
+		}
+	})
+	return hasGo && setsTimer
 }
